@@ -2478,8 +2478,34 @@ public:
         // XXX: if we have a large array that is never smashed but we
         // do many reads with symbolic offsets then it might be better
         // to smash the array so that each read is cheaper.
+        // A cell that has never been written (or that has been
+        // killed) holds an unknown value: the overlapping cells can
+        // only be read if, together, they cover every byte that the
+        // access may touch.
+        auto cells_cover_access = [&ii, e_sz](std::vector<cell_t> cs) {
+          if (cs.empty() || !ii.lb().is_finite() || !ii.ub().is_finite()) {
+            return false;
+          }
+          std::sort(cs.begin(), cs.end(), [](const cell_t &c1, const cell_t &c2) {
+            return c1.get_offset().index() < c2.get_offset().index();
+          });
+          number_t next = *(ii.lb().number()); // first byte not covered yet
+          number_t last = *(ii.ub().number()) + number_t(e_sz - 1);
+          for (auto const &c : cs) {
+            number_t c_lb(static_cast<int64_t>(c.get_offset().index()));
+            number_t c_ub = c_lb + number_t(static_cast<int64_t>(c.get_size()));
+            if (c_lb > next) {
+              return false; // gap
+            }
+            if (c_ub > next) {
+              next = c_ub;
+            }
+          }
+          return next > last;
+        };
         if (crab_domain_params_man::get().array_adaptive_is_smashable()) {
-          if (array_state::can_be_smashed(cells, e_sz, true)) {
+          if (array_state::can_be_smashed(cells, e_sz, true) &&
+              cells_cover_access(cells)) {
             // we smash all overlapping cells into a temporary array
             // (summarized) variable
             auto &vfac =
